@@ -295,8 +295,9 @@ def fam_cpp(tier):
             yield fn([("decl", "si", "y", ("call", "h@<%s>" % T, (e,), "int")), ("ret", Y)], pre=[tpl])
 
 
-FAMILIES = [("narrow", fam_narrow, "c"), ("fold", fam_fold, "c"), ("param", fam_param, "c"), ("cond", fam_cond, "c"), ("loop", fam_loop, "c"),
-            ("switch", fam_switch, "c"), ("mem", fam_mem, "c"), ("sym", fam_sym, "c"), ("cpp", fam_cpp, "cpp")]
+# smallest families first: a deadline cuts the tail of the largest one (fold)
+FAMILIES = [("narrow", fam_narrow, "c"), ("param", fam_param, "c"), ("loop", fam_loop, "c"), ("switch", fam_switch, "c"), ("mem", fam_mem, "c"),
+            ("sym", fam_sym, "c"), ("cpp", fam_cpp, "cpp"), ("cond", fam_cond, "c"), ("fold", fam_fold, "c")]
 
 
 # ---- classification of violations ---------------------------------------------------------------------------------
@@ -371,6 +372,11 @@ def site_info(b, r, v):
                     if c_ in r.types:
                         dct.append(list(r.types[c_][:2]))
         info["def_child_types"] = dct
+        srcs = set()
+        for d in r.defs:
+            if d[0] == node[1] and d[2] is not None:
+                srcs |= set(r.occs[d[2]].vars) - {node[1]}
+        info["def_sources_reassigned"] = any(d[0] in srcs and d[1] in ("asg", "cassign", "incdec") for d in r.defs)
         cur = o
         while cur.parent is not None:
             par = r.occs[cur.parent]
@@ -414,7 +420,7 @@ def classify(info):
     """Class key of a root violation from its local description.  Every listed class has an explanation check that
     ties the reported and the observed value to the mechanism; anything unexplained is 'unclassified:...'."""
     k, n, obs, T, node, op = info["kind"], info["n"], info["observed"], info["type"], info["node"], info["op"]
-    isbool = info.get("decl") == "b" or info.get("cast") == "b" or "c:b" in info.get("def_nodes", ())
+    isbool = info.get("decl") in ("b", "ref:b") or info.get("cast") == "b" or "c:b" in info.get("def_nodes", ())
     if k == "eq" and isbool and obs in (0, 1) and n != obs:
         return "bool-conversion-not-normalised"
     if k == "eq" and node == "b" and op in ("||", "&&") and obs in (0, 1):
@@ -432,9 +438,9 @@ def classify(info):
             return "unreduced:compound-assignment-value"
         if node in ("pre", "post"):
             return "unreduced:incdec-expression-value"
-        if node == "v" and ("cassign" in info.get("defs", ())) and info.get("decl") not in ("si", "sl"):
+        if node == "v" and ("cassign" in info.get("defs", ())):
             return "unreduced:variable-after-compound-assignment"
-        if T == [4, 0] and (node in ("b", "u") and op in ARITH + ("~",)):
+        if T == [4, 0] and ((node in ("b", "u") and op in ARITH + ("~",)) or node == "v"):
             return "unreduced:unsigned-int-arithmetic"
         if T == [4, 0] and node == "c":
             return "unreduced:cast-to-unsigned-int"
@@ -453,7 +459,7 @@ def classify(info):
             return "range-bitnot-of-promoted-operand"
         if node == "v" and info.get("def_types") and any(dt != T for dt in info["def_types"]):
             return "range-ignores-conversion-on-store"
-    if node == "v" and info.get("decl") == "ref" and k in ("eq", "sym-eq"):
+    if node == "v" and str(info.get("decl")).startswith("ref:") and k in ("eq", "sym-eq"):
         return "reference-alias-keeps-value-after-assignment-to-referent"
     if node == "call" and any(t not in ("si", "sl", "void") for t in info.get("callee_types", ())):
         return "call-ignores-parameter-or-return-conversion"
@@ -470,6 +476,8 @@ def classify(info):
     if T == u64 or u64 in info["child_types"] or info.get("decl") == "ul" or info.get("sym_type") == u64 or u64 in info.get("def_types", ()) or u64 in info.get("def_child_types", ()):
         # values >= 2^63 do not fit cppcheck's signed 64-bit value type
         return "unsigned-long-long-evaluated-as-signed-64-bit"
+    if k == "eq" and node == "v" and T == [4, 1] and info.get("decl") == "si" and info.get("def_sources_reassigned"):
+        return "symbolic-relation-survives-reassignment-of-its-source"
     if k in ("gt", "lt") and node == "v" and info.get("in_then_of_or_ternary"):
         return "ternary-then-branch-of-or-condition-assumes-both-operands"
     if k == "eq" and node == "b" and op in CMPS + ["-"] and len(info["child_types"]) == 2 and all(
